@@ -1,5 +1,5 @@
 SPEC = {
-    "lean_modules": ["AM.Props.C07"],
+    "lean_modules": ["AM.Props.C17", "AM.Props.C06", "AM.Props.C07"],
     "theorems": [
         "AM.Route.match_iff_selects", "AM.Route.match_iff_selects_real", "AM.Route.selects_complete", "AM.Route.selects_unique",
         "AM.Route.child_selects_iff_child_matches", "AM.Route.matchP_nil_iff", "AM.Route.match_nonempty",
@@ -9,6 +9,10 @@ SPEC = {
     ],
     "engines": [
         {"name": "route", "pkg": "./route", "search_cases": 20000},
+        # "the root always matches ... every alert is always routed to at least one receiver" rests on what config.Load
+        # accepts (C17's engine); "the dispatcher's actual groups agree" is observed by C06's engine on a real dispatcher
+        {"name": "config", "pkg": "./config", "search_cases": 8000, "only": ["validate_ok_wellformed", "load_total"]},
+        {"name": "group", "pkg": "./group", "search_cases": 8000, "quick_cases": 1500, "timeout_quick": 600},
     ],
     "rule": "random routing trees (depth <= 4, fan-out <= 4, <= 14 nodes; continue; =, !=, =~, !~; legacy match/match_re; "
             "receiver/group_by (list, [], '...')/timers/labels/time-interval overrides) x 4-8 label sets over 3 label names, through the real "
